@@ -51,6 +51,8 @@ def mbk (s : State) : List Msg × Nat := (s.mailbox, s.handled)
       · rw [ih]; simp; rfl
       · rfl
 
+@[simp] theorem mbk_underflow (s : State) (b : Bool) : mbk { s with underflow := b } = mbk s := rfl
+
 @[simp] theorem mbk_release (s : State) (p : Peer) (n : Nat) : mbk (release s p n) = mbk s := by
   unfold release; simp
 
